@@ -64,6 +64,10 @@ def generate(tier, rng):
         yield Script(cfg, history(rng, key, n), "mixed-history")
     for key in ((0, 0), (3, 4)):
         yield Script(gens.cfgs(key=key)[0], gens.control_on_established(rng, key), "control-on-established")
+    import props.c07 as c07x
+    for sc in c07x.generate("quick", rng):
+        if sc.tag in ("structured-wrong-acks",):
+            yield sc
 
 
 def nontrivial(script):
